@@ -538,6 +538,8 @@ class TreeNode(metaclass=TreeNodeMeta):
             :func:`explode <explode_edits>` any :class:`CompoundEdit` in the sequence.
 
         """
+        if not isinstance(self, type(node)):
+            node = node.diff_target()
         edit = self.edits(node)
         prev_bounds = edit.bounds()
         total_range = prev_bounds.upper_bound - prev_bounds.lower_bound
@@ -559,6 +561,16 @@ class TreeNode(metaclass=TreeNodeMeta):
                     pass
                 if edit.bounds().lower_bound > 0:
                     yield ancestors, edit
+
+    def diff_target(self) -> "TreeNode":
+        """Returns the node that other nodes should be compared against when this node is the target of a diff.
+
+        Nodes that merely wrap a document (*e.g.*, the root of a file format that adds a header and footer around its
+        contents) should return the wrapped node, so that a document of another type is compared against the wrapped
+        contents rather than being wholesale replaced by the wrapper. The default implementation returns :obj:`self`.
+
+        """
+        return self
 
     def get_all_edits(self, node: "TreeNode") -> Iterator[Edit]:
         """Returns an iterator over all edits that will transform this node into the provided node.
@@ -588,6 +600,8 @@ class TreeNode(metaclass=TreeNodeMeta):
         ret = self.make_edited()
         assert isinstance(ret, self.__class__)
         assert isinstance(ret, EditedTreeNode)
+        if not isinstance(self, type(node)):
+            node = node.diff_target()
         edit = ret.edits(node)
         prev_bounds = edit.bounds()
         total_range = prev_bounds.upper_bound - prev_bounds.lower_bound
